@@ -294,6 +294,30 @@ def rule_record_kept(ctx):
                   "a thread record or context can be skipped after fill_thread_stack returned Ok")
 
 
+def rule_stack_step_always(ctx, R="C20/stack-decided-by-fill"):
+    """`included if and only if`: whether a thread's stack is in the dump is decided in one place, fill_thread_stack, from that thread's
+    own instruction pointer and stack words.  In thread_list_stream::write every path of one iteration that reaches the record write has
+    passed a call of fill_thread_stack: no flag, cache or thread id lets the writer leave a stack out on its own."""
+    b = ctx.body(R, "linux::sections::thread_list_stream::write")
+    if b is None:
+        return
+    from rules import c01
+    sets = [x for x, t in b.calls(lambda c: c.is_(c01.SET_AT))]
+    fts = [x for x, t in b.calls(lambda c: c.is_(FTS))]
+    loops = b.loops()
+    n = 0
+    for s_ in sets:
+        inner = [h for h, body in loops.items() if s_ in body]
+        if not inner:
+            continue
+        n += 1
+        h = max(inner, key=lambda x: len(loops[x]))
+        w = must_pass(b, h, {s_}, set(fts))
+        ctx.check(w is None, R, ("record", n), b.where(s_), "every thread record written went through fill_thread_stack in its iteration",
+                  "a thread record can be written without fill_thread_stack having run for that thread: its stack is left out by a decision taken elsewhere (not from this thread's instruction pointer and stack words)", detail={"path": w})
+    ctx.floor(R, "thread record writes in the thread loop", n, 1)
+
+
 def rule_soft_only(ctx):
     R = "C20/soft-only"
     b = ctx.body(R, MW + "::dump")
@@ -493,6 +517,7 @@ def run(ctx):
     rule_range_siblings(ctx)
     rule_decision_shape(ctx)
     rule_record_kept(ctx)
+    rule_stack_step_always(ctx)
     rule_soft_only(ctx)
     # the filter option and the principal address are what the caller configured, in every dump (same rule instance as C19/config-preserved)
     from rules import c19 as _c19
